@@ -20,6 +20,13 @@ def eye(n, ctx):
     return ctx.const(np.identity(n))
 
 
+def _modsq(z):
+    """|z|^2 of a (possibly complex) scalar in either mode"""
+    if isinstance(z, (int, float, complex, np.number)):
+        return (z * np.conjugate(z)).real
+    return z * z.conjugate() if hasattr(z, "conjugate") else z * z
+
+
 def mats(ctx, name, n, cplx=False, shape=()):
     return ctx.complexes(name, shape + (n, n)) if cplx else ctx.reals(name, shape + (n, n))
 
@@ -79,16 +86,17 @@ def sl2_iso_isometry(ctx, sign):
     ctx.ensure_eq('preserves_minkowski_form', M @ J @ M.T, J, tol=1e-6)
 
 
-@rcontract(P, "adjoint", instances=[dict(n=2, which='gln'), dict(n=2, which='sln'), dict(n=3, which='gln'), dict(n=3, which='sln')],
-           timeout=120.0,
+@rcontract(P, "adjoint", instances=[dict(n=2, which='gln', cplx=False), dict(n=2, which='sln', cplx=False), dict(n=3, which='gln', cplx=False), dict(n=3, which='sln', cplx=False),
+                                    dict(n=2, which='gln', cplx=True), dict(n=2, which='sln', cplx=True)],
+           thorough=[dict(n=3, which='gln', cplx=True)], timeout=120.0,
            functions=["geometry_tools/lie/core.py:gln_adjoint", "geometry_tools/lie/core.py:sln_adjoint", "geometry_tools/lie/core.py:linear_matrix_action",
                       "geometry_tools/lie/core.py:sln_linear_action", "geometry_tools/lie/core.py:basis_matrix", "geometry_tools/lie/core.py:sln_basis_matrix",
                       "geometry_tools/lie/core.py:gln_lie_algebra_coords", "geometry_tools/lie/core.py:sln_lie_algebra_coords", "geometry_tools/lie/core.py:sln_killing_form"])
-def adjoint(ctx, n, which):
-    A, B = mats(ctx, 'A', n), mats(ctx, 'B', n)
+def adjoint(ctx, n, which, cplx):
+    A, B = mats(ctx, 'A', n, cplx), mats(ctx, 'B', n, cplx)
     dA, dB = det(A, ctx), det(B, ctx)
-    ctx.assume(dA * dA, '>', 0)
-    ctx.assume(dB * dB, '>', 0)
+    ctx.assume(_modsq(dA), '>', 0)
+    ctx.assume(_modsq(dB), '>', 0)
     f = lie.gln_adjoint if which == 'gln' else lie.sln_adjoint
     fA, fB, fAB = f(A), f(B), f(A @ B)
     ctx.ensure_eq('multiplicative', fAB, fA @ fB, tol=1e-6)
@@ -98,7 +106,7 @@ def adjoint(ctx, n, which):
         K = lie.sln_killing_form(n)
         ctx.ensure_eq('preserves_killing_form', fA.T @ K @ fA, K, tol=1e-6)
         # acts as X -> A X A^-1 in the library's own coordinates
-        X = mats(ctx, 'X', n)
+        X = mats(ctx, 'X', n, cplx)
         X[n - 1, n - 1] = -sum(X[i, i] for i in range(n - 1))
         lhs = fA @ lie.sln_lie_algebra_coords(X)
         rhs = lie.sln_lie_algebra_coords(A @ X @ inv(A, ctx))
